@@ -279,6 +279,26 @@ Proof.
   unfold aget in H0, H1. cbn [nth] in H0, H1. subst a0 a1. apply map_override_ones.
 Qed.
 
+(* ---------- holders: the cached conditioning positions are those of a fresh object whenever the last operation
+   is not an in-place change (model replacement, set_condition() and set_condition(new data) all recompute), for
+   EVERY history before it; an evaluation then hands the solver exactly the system of a fresh object *)
+Definition coherent (h : holder (T := T)) : Prop := h_kpos h = map (isometrize O (h_model h)) (h_cond h).
+
+Lemma hstep_refreshing_coherent h op : refreshing op = true -> coherent (hstep O h op).
+Proof. destruct op; intros H; try discriminate; reflexivity. Qed.
+
+Theorem holder_history_coherent h ops op : refreshing op = true -> coherent (hrun O h (ops ++ [op])).
+Proof. intros H. unfold hrun. rewrite fold_left_app. cbn [fold_left]. now apply hstep_refreshing_coherent. Qed.
+
+Theorem holder_system_is_fresh h cf cfr unbiased cond_err tgt : coherent h ->
+  holder_system O h cf cfr unbiased cond_err tgt = krige_system O (h_model h) cf cfr unbiased cond_err (h_cond h) tgt.
+Proof. intros Hc. unfold holder_system, krige_system. now rewrite Hc. Qed.
+
+(* replacing the model keeps the data and makes the holder equal to a freshly initialised one *)
+Theorem holder_set_model_is_init h ops m :
+  hrun O h (ops ++ [HSetModel m]) = hinit O m (h_cond (hrun O h ops)).
+Proof. unfold hrun. rewrite fold_left_app. reflexivity. Qed.
+
 End Structural.
 
 (* ====================================================================== real instance *)
